@@ -212,7 +212,7 @@ Example exm_hyps :
 Proof.
   split; [valid|]. split; [repeat constructor|]. split; [cbn; tauto|].
   split; [vm_compute; reflexivity|]. split; [vm_compute; reflexivity|].
-  split; [intros simul k tb; vm_compute; reflexivity|].
+  split; [intros simul k tb; destruct k; vm_compute; reflexivity|].
   split; [vm_compute; reflexivity|vm_compute; discriminate].
 Qed.
 
